@@ -156,6 +156,9 @@ def main(argv=None):
             specs = [{"replay": rp.get("case"), "seed": rp.get("seed", 0), "tier": rp.get("tier", "quick")}]
         else:
             specs = mod.plan(args.tier, args.seed)
+            if getattr(mod, "SUITE_UNDER_MONITORS", False) and (args.tier == "thorough" or os.environ.get("VERIF_SUITE")):
+                # engine "suite under monitors": the unedited repository tests with this property's contracts loaded
+                specs.append({"part": "suite-under-monitors", "tier": args.tier, "seed": args.seed})
         results = run_workers(pid, mod, specs, args.jobs, tmp, args.tier)
         agg = merge(results)
         entries = kf.load(HOME)
